@@ -31,7 +31,7 @@ import (
 type Spoof struct {
 	AtMS   int    `json:"at_ms"`
 	Target string `json:"target"` // rtp | rtcp (of the side that receives media: the client when playing, the server when recording)
-	Src    string `json:"src"`    // other-ip | other-ip-same-port | same-ip-other-port | mapped-other-ip | v6-prefix | v6-compat | v6-nat64 (IPv6 addresses built from the bytes of the negotiated IPv4 one)
+	Src    string `json:"src"`    // reader-ip-other-port (mcast: the reader's address with a port other than the negotiated one, to the group) | other-ip | other-ip-same-port | same-ip-other-port | mapped-other-ip | v6-prefix | v6-compat | v6-nat64 (IPv6 addresses built from the bytes of the negotiated IPv4 one)
 	Count  int    `json:"count"`
 }
 
@@ -47,7 +47,7 @@ type Scenario struct {
 	Seed       uint64        `json:"seed"`
 	Net        simnet.Config `json:"net"`
 	Role       string        `json:"role"`      // play | record
-	Transport  string        `json:"transport"` // udp | tcp
+	Transport  string        `json:"transport"` // udp | tcp | mcast (UDP-multicast reader; play only)
 	AnyPort    bool          `json:"any_port"`
 	Spoofs     []Spoof       `json:"spoofs"`
 	Intrusions []Intrusion   `json:"intrusions"`
@@ -118,6 +118,20 @@ func gen(seed uint64, tier string) Scenario {
 		}
 	}
 	n.UDPIPv6Form = r.Bool(0.3) // sources reported in 16-byte (IPv4-mapped) form
+	// a UDP-multicast reader (hash-derived so that no other choice moves): forged datagrams go to the
+	// group, where both the reader's and the server's multicast listeners see them; some come from the
+	// reader's own address with a port other than the negotiated one (the server's side of the binding)
+	if x := core.HS(seed, "c19.mcast", "", 0); sc.Role == "play" && sc.Transport == "udp" && !sc.AnyPort && sc.QuietAtMS == 0 && x%100 < 55 {
+		sc.Transport = "mcast"
+		for i := range sc.Spoofs {
+			if y := core.HS(seed, "c19.mcast.src", "", uint64(i)); y%100 < 40 {
+				sc.Spoofs[i].Src = "reader-ip-other-port"
+				if (y>>8)%3 != 0 {
+					sc.Spoofs[i].Target = "rtcp"
+				}
+			}
+		}
+	}
 	sc.Net = n
 	return sc
 }
@@ -145,7 +159,7 @@ func run(t *testing.T, sc Scenario) *core.Result {
 	var summary map[string]any
 	res := sys.Run(t, opts, func(w *sys.World) {
 		w.ProbeInit("spoofed_datagrams_delivered_to_socket", "legit_packets_delivered", "intrusion_rejected", "intrusion_other_ip", "intrusion_same_ip_other_conn",
-			"legit_peer_vanished", "source_went_quiet", "client_timed_out_despite_spoofer", "session_expired_despite_spoofer", "ipv6_form_sources", "any_port", "stats_match_legit_traffic")
+			"legit_peer_vanished", "source_went_quiet", "client_timed_out_despite_spoofer", "session_expired_despite_spoofer", "ipv6_form_sources", "any_port", "stats_match_legit_traffic", "multicast_reader", "server_multicast_stats_match", "spoof_from_reader_ip_other_port")
 		since := func() time.Duration { return time.Since(w.Log.Start()) }
 		srvNode := w.Net.Node("srv", "10.0.0.1")
 		h := sys.NewHandler(w)
@@ -153,6 +167,14 @@ func run(t *testing.T, sc Scenario) *core.Result {
 			// (odd nanoseconds: two deadlines derived from the same instant never fall on the same
 			// fake-clock tick, where the runtime would order their timers arbitrarily)
 			IdleTimeout: ms(sc.IdleMS) + 257, ReadTimeout: ms(sc.ReadMS) + 131}
+		mcast := sc.Transport == "mcast"
+		udpLike := sc.Transport == "udp" || mcast
+		cliIP := "10.0.0.20"
+		if mcast {
+			srv.MulticastIPRange, srv.MulticastRTPPort, srv.MulticastRTCPPort = "224.1.0.0/16", 8002, 8003
+			cliIP = "127.0.0.1" // the client needs a real interface with its local address (net.Interfaces)
+			w.Probe("multicast_reader")
+		}
 		srv.VerifSetPeriods(10*time.Second, 10*time.Second, ms(sc.CheckMS)+61)
 		h.Server = srv
 		sys.WireServer(srv, srvNode, nil)
@@ -174,7 +196,7 @@ func run(t *testing.T, sc Scenario) *core.Result {
 			w.Probe("any_port")
 		}
 
-		cliNode := w.Net.Node("cli", "10.0.0.20")
+		cliNode := w.Net.Node("cli", cliIP)
 		spoofNode := w.Net.Node("spoofer", "10.0.0.66")
 		intruderNode := w.Net.Node("intruder", "10.0.0.77")
 
@@ -186,11 +208,27 @@ func run(t *testing.T, sc Scenario) *core.Result {
 		if sc.Role == "record" {
 			recvNode, legitSrcIP = "srv", "10.0.0.20"
 		}
+		// (mcast) bytes that reached the server's multicast listeners from the reader's negotiated address and port
+		srvLegitBytes, srvForgedSeen := 0, 0
 		w.Net.AddTap(func(ev simnet.TapEvent) {
-			if ev.Kind != "udp.deliver" || ev.Node != recvNode {
+			if ev.Kind != "udp.deliver" {
 				return
 			}
 			from := ev.From.(*net.UDPAddr)
+			forged := len(ev.Data) >= 16 && binary.BigEndian.Uint32(ev.Data[12:]) == spoofMagic || (len(ev.Data) >= 8 && ev.Data[1] == 200 && binary.BigEndian.Uint32(ev.Data[4:]) == spoofMagic)
+			if mcast && ev.Node == "srv" {
+				to := ev.To.(*net.UDPAddr)
+				tmu.Lock()
+				if forged {
+					srvForgedSeen++
+				} else if from.IP.String() == cliIP && from.Port == to.Port {
+					srvLegitBytes += len(ev.Data)
+				}
+				tmu.Unlock()
+			}
+			if ev.Node != recvNode {
+				return
+			}
 			tmu.Lock()
 			if len(ev.Data) >= 16 && binary.BigEndian.Uint32(ev.Data[12:]) == spoofMagic || (len(ev.Data) >= 8 && ev.Data[1] == 200 && binary.BigEndian.Uint32(ev.Data[4:]) == spoofMagic) {
 				forgedSeen++
@@ -221,10 +259,20 @@ func run(t *testing.T, sc Scenario) *core.Result {
 				w.Fail("c19/spoofed-media delivered", "a forged RTCP sender report reached the session's RTCP callback")
 			}
 		}
+		// reading sessions have an RTCP callback too (receiver reports of the reader; over UDP-multicast
+		// they arrive at the multicast listener of the media, where forged ones arrive as well)
+		h.PlayStatus = func(ss *gortsplib.ServerSession) base.StatusCode {
+			if ss.State() == gortsplib.ServerSessionStatePrePlay {
+				ss.OnPacketRTCPAny(func(m *description.Media, pkt rtcp.Packet) { h.OnRTCP(ss, m, pkt) })
+			}
+			return 0
+		}
 
 		p := gortsplib.ProtocolTCP
 		if sc.Transport == "udp" {
 			p = gortsplib.ProtocolUDP
+		} else if mcast {
+			p = gortsplib.ProtocolUDPMulticast
 		}
 		c := &gortsplib.Client{Scheme: "rtsp", Host: "10.0.0.1:8554", Protocol: &p, AnyPortEnable: sc.AnyPort}
 		if sc.QuietAtMS > 0 {
@@ -437,10 +485,22 @@ func run(t *testing.T, sc Scenario) *core.Result {
 			}
 			time.Sleep(100 * time.Millisecond)
 			// statistics of the session count the negotiated peer's traffic only
-			if sc.Transport == "udp" {
+			if udpLike {
 				tmu.Lock()
 				lb := legitBytes
+				slb, sfs := srvLegitBytes, srvForgedSeen
 				tmu.Unlock()
+				if mcast {
+					// the server's side: forged datagrams sent to the group also reach the server's multicast
+					// listeners; the reader's session counts what came from the reader's negotiated address and port
+					if s0 := findSession(); s0 != nil {
+						if st := s0.Stats(); st.InboundBytes != uint64(slb) {
+							w.Fail("c19/spoofed-media counted", "the multicast reader's session on the server counts %d inbound bytes but %d bytes arrived at the server's multicast listeners from the reader's negotiated address and port (forged datagrams reaching them: %d)", st.InboundBytes, slb, sfs)
+							return
+						}
+						w.Probe("server_multicast_stats_match")
+					}
+				}
 				var inb uint64
 				if sc.Role == "play" {
 					inb = c.Stats().Session.InboundBytes
@@ -463,7 +523,7 @@ func run(t *testing.T, sc Scenario) *core.Result {
 		// ---- spoofer -------------------------------------------------------------------
 		w.Go("spoofer", func() {
 			<-established
-			if w.Failed() || sc.Transport != "udp" {
+			if w.Failed() || !udpLike {
 				return
 			}
 			sock, err := spoofNode.ListenPacket("udp", ":5555")
@@ -487,6 +547,15 @@ func run(t *testing.T, sc Scenario) *core.Result {
 				dstRTP, dstRTCP = a0, a1
 				legitRTP = &net.UDPAddr{IP: net.ParseIP("10.0.0.1"), Port: 8000}
 				legitRTCP = &net.UDPAddr{IP: net.ParseIP("10.0.0.1"), Port: 8001}
+				if mcast {
+					// the reader's sockets are bound to the group: what is sent there reaches the reader's and
+					// the server's multicast listeners alike
+					if !a0.IP.IsMulticast() || !a1.IP.IsMulticast() {
+						w.Fail("c19/harness", "the multicast reader's sockets are %v and %v", a0, a1)
+						return
+					}
+					legitRTP.Port, legitRTCP.Port = a0.Port, a1.Port
+				}
 			} else {
 				dstRTP = &net.UDPAddr{IP: net.ParseIP("10.0.0.1"), Port: 8000}
 				dstRTCP = &net.UDPAddr{IP: net.ParseIP("10.0.0.1"), Port: 8001}
@@ -503,7 +572,7 @@ func run(t *testing.T, sc Scenario) *core.Result {
 			}
 			seq := uint16(1000 + sc.Packets/2)
 			start := time.Now()
-			for _, sp := range sc.Spoofs {
+			for k0, sp := range sc.Spoofs {
 				if d := ms(sp.AtMS) - time.Since(start); d > 0 {
 					time.Sleep(d)
 				}
@@ -513,6 +582,10 @@ func run(t *testing.T, sc Scenario) *core.Result {
 				}
 				var from *net.UDPAddr
 				switch sp.Src {
+				case "reader-ip-other-port":
+					// (mcast) the reader's own address, but not the port the reader was registered with
+					from = &net.UDPAddr{IP: net.ParseIP(cliIP), Port: legit.Port + 2 + 2*(k0%3)}
+					w.Probe("spoof_from_reader_ip_other_port")
 				case "other-ip":
 					from = &net.UDPAddr{IP: net.ParseIP("10.0.0.66"), Port: 5555}
 				case "other-ip-same-port":
@@ -585,7 +658,7 @@ func run(t *testing.T, sc Scenario) *core.Result {
 			}
 			_ = spoofDelivered
 			// a silent legitimate peer plus an active spoofer expires as it would alone
-			if sc.VanishAtMS > 0 && sess != nil && sc.Transport == "udp" {
+			if sc.VanishAtMS > 0 && sess != nil && udpLike {
 				closed, at, cerr := sessClosed()
 				timeout := ms(sc.IdleMS)
 				last := vanishedAt
